@@ -50,6 +50,19 @@ CHECKS = {
                      "never below the exact law, monotone, within one class.",
                 note="The stored edge (k/n)*L_max is the reference edge; number_of_bins=1 fails at construction and is counted only.",
                 ref="3 C07"),
+    "C08": dict(cat="exploration", tech="exhaustive lattice enumeration of curve parameters x scatter x probabilities x loads/cycles (incl. every transformed knee) against a plain log-normal reference",
+                text="Every curve of the lattice k_1 x k_2 (incl. inf, absent) x SD x ND x scatter (absent, TN only, TS only, both) x native P x target P is probed at loads and "
+                     "cycles placed relative to SD/ND and to every *transformed* knee (x{0.2..10}, 1 -+ 1e-12): inverse pairs, monotony, knee continuity, slopes, Miner variants and "
+                     "non-destructiveness, quantile ratios TN/TS, all 25 compositions of the probability transform, scatter conversions, broadcast = element-wise scalar.",
+                note="Reference quantiles from statistics.NormalDist; cycles(load(N)) beyond the knee for k_2 = inf counted, not judged (life not finite).",
+                ref="3 C08"),
+    "C09": dict(cat="exploration", tech="exhaustive enumeration of all small hysteresis tables (levels x closed/half x two passes) against a literal accumulation loop in exact fractions; lattices for curves, P_RAM, beta, gamma_L",
+                text="All ordered hysteresis tables with <= 2 first-pass and <= 3 second-pass rows over a level alphabet (below endurance, just above, mid, above P_Z) x {closed, half} "
+                     "are run through the real DamageCalculatorPRAM (single and 25-point batches) and compared with a literal add-until-one loop (exact Fractions for a family "
+                     "whose sums hit 1 exactly); P_RAM/P_RAJ curves on 27 parameter sets (inverse, monotone, continuity at 1e3 and the endurance knee, inf below); 630 P_RAM rows; "
+                     "compute_beta on 131-311 probabilities; 282 gamma_L cases.",
+                note="Early-failure reporting (n_times = 0, cycles accumulated while below one) pinned to the class documentation; normal-distribution gamma_L judged against the documented formula.",
+                ref="3 C09"),
     "C12": dict(cat="exploration", tech="exhaustive lattice enumeration of (amplitude, mean, diagram, R_goal, R_1 -> R_2 paths) against a closed-form Haigh reference; exhaustive small rainflow matrices",
                 text="All cycles of an (amplitude x mean) lattice hitting R = -inf, -1, 0, R12, R23, > 1 exactly x 4 Goodman and 4-16 five-segment diagrams x 12-18 targets: "
                      "Goodman closed form, path independence over all (R_1, R_2), idempotence, fixed points, continuity at every segment border and monotonicity, agreement of "
@@ -69,6 +82,12 @@ CHECKS = {
                      "(2-D: ^4) x source/target binning pairs for rebin (conservation, identity, composition) and combine (grand total).",
                 note="A row of a collective counts as one cycle for histogramming (interpretation fixed in DESIGN); numpy's edge convention is the reference.",
                 ref="3 C14"),
+    "C15": dict(cat="exploration", tech="exhaustive lattice enumeration of (strength median/scatter, load scatter, z) scan lines against the closed-form normal overlap",
+                text="Every point of medians x strength std x load std (ratios up to 200, thorough 3000) x z in [-7, 7] is evaluated by pf_norm_load along two scan lines "
+                     "(load median / strength median varying) and compared with Phi(z) (|p - Phi| <= 1e-9 + 1e-4 min(Phi, 1-Phi)), with bounds, both monotony clauses, "
+                     "pf_simple_load, the vanishing-scatter ladder and the sampled-density ladder of pf_arbitrary_load.",
+                note="Arbitrary-load rungs judged only where the coarser grid resolves the strength std; explicit integration limits not exercised.",
+                ref="3 C15"),
     "C16": dict(cat="exploration", tech="exhaustive lattice enumeration of parameters x stress/strain states for closed-form material laws against plain references",
                 text="Ramberg-Osgood over E x K x n (0.05..0.95) x stresses up to 2K and strains up to 1, scalar and array: inverse pairs, oddness, monotonicity, compliance vs "
                      "central differences, Masing doubling, lower branch at the reversal; Hooke 1D/2D/3D over E x nu x all states in {-1,0,2}^k: identities and plane reductions; "
